@@ -554,8 +554,8 @@ theorem jinv_pushToBlock2 (P : Params) (st : St) (p : Pkt) {st' : St} {b : Bool}
         · simp at h; obtain ⟨rfl, rfl⟩ := h
           refine ⟨fun _ => ?_, fun hf => (by cases hf)⟩
           cases hl with
-          | inl hn => exact jinv_complete_none hj hn
-          | inr hop => exact jinv_complete_zero hj hop (by rw [htl, htl0])
+          | inl hn => simp only [hn]; exact hj
+          | inr hop => simp only [hop]; exact jinv_complete_zero hj hop (by rw [htl, htl0])
       · split at h
         · simp at h; obtain ⟨rfl, rfl⟩ := h; exact ⟨fun _ => hj, fun hf => (by cases hf)⟩
         · split at h
